@@ -25,7 +25,7 @@ RULE = ("cases: one case = one bucket layout (0..6 buckets spread over up to 4 p
         "thorough: every set of at most 2 interruption points among the interesting ones (every bucket, every used prefix and "
         "its neighbours, first and last prefix) for every layout of at most 4 buckets (all distributions of 0..6 buckets over "
         "3 prefix directories and more; 24 sampled pairs beyond 4 buckets), every subset for layouts of at most 2 buckets, and kills around every non-routine event of "
-        "every slice of the singly interrupted schedules (all of them up to 2 buckets, 4 per slice beyond); quick: a seeded "
+        "every slice of the singly interrupted schedules (all of them up to 2 buckets, 3 per slice beyond); quick: a seeded "
         "sample of the same; "
         "distinct = distinct (layout shape, schedule); non-trivial = a run that finishes at least one cycle after an "
         "interruption or a kill")
@@ -382,14 +382,28 @@ class Batch(object):
         return slices, final
 
     def flush(self, tag):
-        ctx = self.ctx
-        bad = ctx.coq_check(IMPORTS, self.terms, tag=tag, shard=48)
-        for ix in bad:
-            case, obs, final = self.info[ix]
-            ctx.mismatch("crawler-model-vs-impl", "Model/Crawler.v `run` and the real ShareCrawler produce different logs or final states",
-                         case=case, observed={"log": obs, "final": final}, correspondence="crawler-run-vs-model")
-        ctx.trace(len(self.terms) - len(bad))
+        """Hand the collected terms to Coq in the background (the crawler runs go on meanwhile)."""
+        if not self.terms:
+            return
+        import concurrent.futures
+        if not hasattr(self, "pool"):
+            self.pool = concurrent.futures.ThreadPoolExecutor(max_workers=2)
+            self.pending = []
+        terms, info = self.terms, self.info
         self.terms, self.info = [], []
+        self.pending.append((self.pool.submit(self.ctx.coq_check, IMPORTS, terms, "", "%s%d" % (tag, len(self.pending)), 48), info))
+
+    def finish(self):
+        ctx = self.ctx
+        for fut, info in getattr(self, "pending", []):
+            bad = fut.result()
+            for ix in bad:
+                case, obs, final = info[ix]
+                ctx.mismatch("crawler-model-vs-impl", "Model/Crawler.v `run` and the real ShareCrawler produce different logs or final states",
+                             case=case, observed={"log": obs, "final": final}, correspondence="crawler-run-vs-model")
+            ctx.trace(len(info) - len(bad))
+        if hasattr(self, "pool"):
+            self.pool.shutdown()
 
 
 PREFIX_SETS = [[0, 1, 500, 1023], [0, 1022, 1023], [3, 4, 5, 700], [511, 512], [0], [1023], [17, 900, 901, 902]]
@@ -475,8 +489,8 @@ def run(ctx):
                 kp = interesting_kills(slices[sj], layout.watch())
                 if not thorough:
                     kp = ctx.rng("kill", li, p, sj).sample(kp, min(len(kp), 2))
-                elif layout.n > 2 and len(kp) > 4:
-                    kp = sorted(ctx.rng("kill", li, p, sj).sample(kp, 4))
+                elif layout.n > 2 and len(kp) > 3:
+                    kp = sorted(ctx.rng("kill", li, p, sj).sample(kp, 3))
                 for k in kp:
                     ks = list(specs)
                     ks[sj] = (specs[sj][0], k)
@@ -485,7 +499,7 @@ def run(ctx):
         # pairs / all subsets
         if thorough:
             import itertools
-            small = layout.n <= 2 and len(pts) <= 9
+            small = layout.n <= 2 and len(pts) <= 8
             maxr = len(pts) if small else 2
             for rsize in range(2, maxr + 1):
                 subs = list(itertools.combinations(pts, rsize))
@@ -510,9 +524,10 @@ def run(ctx):
                     specs.append((ticks, kill))
                 specs.append(([], None))
                 batch.add(layout, specs, "random-schedule")
-        if len(batch.terms) >= 1500:
+        if len(batch.terms) >= 400:
             batch.flush("c27")
     batch.flush("c27")
+    batch.finish()
 
 
 def replay(ctx, rec):
